@@ -98,6 +98,20 @@ def run(ck):
     below = ck.m_closure(qf, "Pipeline::count", "ConnStateData::pipelinePrefetchMax") & E.M(lambda t: E.strip(t).get("op") == "<", "(count < limit)")
     ck.require_fact("P5.limit", ck.flow(qf), ev_return(E.m_const(0)), below, True, "return false", why="(the queue would be reported as not full although it is)")
 
+    ck.rule("P5b no pipelined parse inside a request body: parseOneRequest() only with bodyPipe established null (the bytes in inBuf belong to the body being "
+            "received; parsing them as the next request answers 400 and abandons the upload)")
+    ck.require_fact("P5b.no-parse-while-reading-body", ck.flow(pr), ev_call("ConnStateData::parseOneRequest"), E.m_is_mem("bodyPipe"), False, "parseOneRequest()",
+                    why="(body bytes left in inBuf would be parsed as a pipelined request)")
+
+    ck.rule("P7 ConnStateData::kick (a response finished): once the connection is known to be open after parseRequests(), every path consults pipeline.front(), and a "
+            "non-null front is always handed to ClientSocketContextPushDeferredIfNeeded() -- in particular not only while flags.readMore is set: responses deferred "
+            "behind the finished one must be released even after Squid stopped reading requests (e.g. after an error on a later pipelined request)")
+    kk = facts.fn("ConnStateData::kick")
+    opened = E.m_calls("ConnStateData::isOpen")
+    ck.require_response("P7.kick-consults-front", kk, opened, True, ev_call(front), "pipeline.front()", term_kinds=("IfStmt",),
+                        why="(deferred responses behind the finished one would never be pushed: the client waits forever)")
+    ck.require_response("P7.kick-pushes-front", kk, ck.m_result_of(kk, front), True, ev_call("ClientSocketContextPushDeferredIfNeeded"), "PushDeferredIfNeeded()", term_kinds=("IfStmt",))
+
     ck.rule("P6 deferred delivery: every call of ClientSocketContextPushDeferredIfNeeded passes a local defined by pipeline.front(); inside, clientSocketRecipient is "
             "re-entered only with flags.deferred set and with that stream's own deferredparams; WHO(direct callers of clientSocketRecipient) = {that function}; "
             "deferRecipientForLater sets flags.deferred only when it was clear; WHO-writes(flags.deferred)")
